@@ -44,9 +44,21 @@ Definition can_mult (a1 a2 : option arr) : bool :=
   | _, _ => false
   end.
 
-(* what an arithmetic handler does with value[]: the shape of the result and, per result
-   element, the element numbers read from the left and right operand *)
-Record access := { acc_shape : list Z; acc_reads : list (Z * Z * Z) (* (write, read1, read2) *) }.
+(* object_arr_dim_copy: for d < dims: dv[d].elems = value[d].elems; dv[d].mult = value[d].mult *)
+Fixpoint dim_copy (value : dimv) : dimv :=
+  match value with
+  | [] => []
+  | (n, mu) :: t => (n, mu) :: dim_copy t
+  end.
+
+(* object_arr_copy (gc_copy_arr): dims, elems copied, dv = object_arr_dim_copy, fresh value[] *)
+Definition arr_copy (a : arr) : arr := {| a_dv := dim_copy (a_dv a); a_elems := a_elems a |}.
+
+(* what an arithmetic handler does with value[]: the shape and the dimension vector (extents
+   and multipliers) of the result and, per result element, the element numbers read from the
+   left and right operand *)
+Record access := { acc_shape : list Z; acc_dv : dimv;
+                   acc_reads : list (Z * Z * Z) (* (write, read1, read2) *) }.
 
 Fixpoint upto (n : nat) : list Z :=
   match n with O => [] | S k => upto k ++ [Z.of_nat k] end.
@@ -59,8 +71,20 @@ Definition arr_addsub (a1 a2 : option arr) : result access :=
   | Some m1, Some m2 =>
       if negb (can_add a1 a2) then Exc WrongArraySize
       else Ok {| acc_shape := map fst (a_dv m2);
+                 acc_dv := a_dv (arr_copy m2);
                  acc_reads := map (fun e => (e, e, e)) (upto (Z.to_nat (a_elems m1))) |}
   | _, _ => Exc NilPointer
+  end.
+
+(* vm_execute_op_neg_arr_<t> (-a) and vm_execute_op_mul_arr_<t> (scalar * a):
+     nil -> NIL_POINTER; mres = copy of the operand; for (e = 0; e < m1->elems; e++) mres[e] = f(m1[e]) *)
+Definition arr_unary (a : option arr) : result access :=
+  match a with
+  | Some m1 =>
+      Ok {| acc_shape := map fst (a_dv m1);
+            acc_dv := a_dv (arr_copy m1);
+            acc_reads := map (fun e => (e, e, e)) (upto (Z.to_nat (a_elems m1))) |}
+  | None => Exc NilPointer
   end.
 
 (* vm_execute_op_mul_arr_arr_<t>:
@@ -85,6 +109,7 @@ Definition arr_matmul (a1 a2 : option arr) : result access :=
         let n0 := dv_elems (a_dv m1) 0 in
         let n1 := dv_elems (a_dv m1) 1 in
         let p1 := dv_elems (a_dv m2) 1 in
-        Ok {| acc_shape := [n0; p1]; acc_reads := matmul_reads n0 n1 p1 |}
+        Ok {| acc_shape := [n0; p1]; acc_dv := fst (dim_mult [n0; p1]);
+              acc_reads := matmul_reads n0 n1 p1 |}
   | _, _ => Exc NilPointer
   end.
